@@ -24,6 +24,10 @@ MUTANTS = {
         ('sm-timeline-forced', 'dashlive/server/requesthandler/manifest_requests.py', "        elif mft.segment_timeline or options.patch:\n            options.update(segmentTimeline=True)", "        elif mft.segment_timeline and options.patch:\n            options.update(segmentTimeline=True)"),
         ('sm-maxage-ceil', 'dashlive/server/requesthandler/manifest_requests.py', "            max_age = int(math.floor(context[\"minimumUpdatePeriod\"]))\n        except KeyError:\n            max_age = 60\n        headers = {\n            'Content-Type': 'application/dash+xml',", "            max_age = int(math.ceil(context[\"minimumUpdatePeriod\"]))\n        except KeyError:\n            max_age = 60\n        headers = {\n            'Content-Type': 'application/dash+xml',"),
         ('sm-bad-options-500', 'dashlive/server/requesthandler/manifest_requests.py', "            logging.info('Invalid CGI parameters: %s', e)\n            return flask.make_response('Invalid CGI parameters', 400)\n        if mode != 'live':", "            logging.info('Invalid CGI parameters: %s', e)\n            raise\n        if mode != 'live':"),
+        ('sp-no-feature-check', 'dashlive/server/requesthandler/manifest_requests.py', "        if 'patch' not in mft.features:", "        if False:"),
+        ('sp-vod-options', 'dashlive/server/requesthandler/manifest_requests.py', "                mode='live', args=flask.request.args, stream=current_stream,\n                restrictions=mft.restrictions,", "                mode='vod', args=flask.request.args, stream=current_stream,\n                restrictions=mft.restrictions,"),
+        ('sp-timeline-off', 'dashlive/server/requesthandler/manifest_requests.py', "        options.update(patch=True, segmentTimeline=True)", "        options.update(patch=True)"),
+        ('sp-publish-ms', 'dashlive/server/requesthandler/manifest_requests.py', "        original_publish_time = datetime.datetime.fromtimestamp(\n            publish, tz=UTC())", "        original_publish_time = datetime.datetime.fromtimestamp(\n            publish // 1000, tz=UTC())"),
         ('err-counter-none', 'dashlive/server/requesthandler/base.py', "value = (flask.session.get(key) or 0) + 1", "value = flask.session.get(key, 0) + 1"),
         ('err-count-ge', 'dashlive/server/requesthandler/media_requests.py', "self.increment_error_counter(content_type, code) > options.failureCount", "self.increment_error_counter(content_type, code) >= options.failureCount"),
         ('err-pos-eq', 'dashlive/server/requesthandler/media_requests.py', "            if pos != seg_num:\n                continue\n            if (", "            if pos == seg_num:\n                continue\n            if ("),
